@@ -4,6 +4,7 @@ Tie: Model/History.v vs the implementation on random histories: the same constra
 changed after constraints were constructed, Variables of different generations are mixed.
 Oracle: the history itself — after every step the shared objects must give the same cone signature and optimal value as
 a freshly built copy of the model; mixed generations must be rejected."""
+import math
 import warnings
 from fractions import Fraction
 
@@ -422,12 +423,78 @@ def oracle_generations(rng):
                     'current generation' % (pr.A.shape,))
         except RuntimeError:
             pass
+        # ... and it makes no difference whether somebody asked the constraint for its Variables before the first compilation
+        # (the library does: SigDomain(coniclifts_cons=...) and find_variables_from_constraints run before compiling)
+        for how in ('variables', 'find_variables', 'sigdomain'):
+            cl.clear_variable_indices()
+            e_old = cl.Variable(shape=(2,), name='ge_' + how)
+            cl.clear_variable_indices()
+            con = cl.weighted_sum_exp(np.array([1.0, 2.0]), e_old) <= 4
+            try:
+                if how == 'variables':
+                    con.variables()
+                elif how == 'find_variables':
+                    from sageopt.coniclifts.compilers import find_variables_from_constraints
+                    find_variables_from_constraints([con, e_old >= -1])
+                else:
+                    from sageopt.symbolic.signomials import SigDomain
+                    try:
+                        SigDomain(2, coniclifts_cons=[con, e_old >= -1])
+                        return ('SigDomain(coniclifts_cons=...) accepted a nonlinear constraint over a Variable of an earlier generation (its epigraph '
+                                'Variables belong to the current generation)')
+                    except RuntimeError:
+                        pass
+                pr = cl.Problem(cl.MAX, e_old[0], [con, e_old >= -1])
+                return ('a nonlinear constraint over a Variable of an earlier generation was compiled (A is %s) after %s had been asked for its Variables '
+                        'before the first compilation; without that call the model is rejected' % (pr.A.shape, how))
+            except RuntimeError:
+                pass
         b = cl.Variable(shape=(2,), name='gb_current')
         # same generation after the clear: fine
         c2 = cl.Variable(shape=(2,), name='gc')
         st = cl.Problem(cl.MIN, b[0] + c2[1], [b >= 1, c2 >= 2]).solve(verbose=False)
         if st[0] != 'solved' or abs(st[1] - 3) > 1e-6:
             return 'a single-generation model built after clear_variable_indices solves to %r' % (st,)
+    return None
+
+
+def oracle_id_coincidence(rng):
+    """ScalarVariable indices and the ids of each class of nonlinear atoms come from separate counters, so whether a Variable component and an
+    atom carry the same number depends on what was created earlier in the session.  The meaning of a model must not depend on that: build the
+    coincidence on purpose (as it occurs in a fresh session) and compare with the same model built without it."""
+    import sageopt.coniclifts as cl
+    from sageopt.coniclifts.operators.exp import Exponential
+    from sageopt.coniclifts.operators.abs import Abs, abs as clabs
+    with warnings.catch_warnings():
+        warnings.simplefilter('ignore')
+        for kind in ('exp', 'abs'):
+            for coincide in (True, False):
+                cl.clear_variable_indices()
+                nxt = Exponential._EXPONENTIAL_COUNTER_ if kind == 'exp' else Abs._ABS_COUNTER_
+                x = cl.Variable(shape=(nxt + 3,), name='idc_%s_%d' % (kind, coincide))
+                j = nxt if coincide else nxt + 1          # x[j] carries the number the next atom of that class will get
+                atom_expr = cl.weighted_sum_exp(np.array([1.0]), x[:1]) if kind == 'exp' else clabs(x[:1])
+                atom = [a for a in atom_expr.ravel()[0].atoms_to_coeffs if not isinstance(a, type(list(x[0].atoms_to_coeffs)[0]))]
+                if coincide and (not atom or atom[0].id != list(x[j].atoms_to_coeffs)[0].id):
+                    return None if not atom else 'harness: could not build the id coincidence (%r vs %r)' % (atom[0].id, list(x[j].atoms_to_coeffs)[0].id)
+                E = cl.hstack((atom_expr, x[j]))
+                M = np.array([[1.0, 2.0], [3.0, -1.0]])
+                val = np.zeros(nxt + 3)
+                val[0], val[j] = 0.5, -1.5
+                x.value = val
+                a0 = math.exp(0.5) if kind == 'exp' else 0.5
+                for name, got, want in (('M @ E', M @ E, M @ np.array([a0, -1.5])), ('E @ M', E @ M, np.array([a0, -1.5]) @ M)):
+                    gv = np.asarray(got.value, dtype=float)
+                    natoms = [len(se.atoms_to_coeffs) for se in got.ravel()]
+                    if not np.allclose(gv, want) or natoms != [2, 2]:
+                        return ('%s with E = (%s(x0), x[%d]) where the atom and x[%d] %s: value %s with %s atoms per cell; expected %s with 2 atoms per cell'
+                                % (name, kind, j, j, 'carry the same number %d' % nxt if coincide else 'carry different numbers', gv.tolist(), natoms, want.tolist()))
+                # the same through a solve: max x_j s.t. [1, 2] @ (atom(x0), x_j) <= 3, x0 >= 0 (exp) or x0 >= 1 (abs): x_j = 1
+                cons = [np.array([1.0, 2.0]) @ E <= 3, x[0] >= (0 if kind == 'exp' else 1), x[0] <= 5]
+                st, v = cl.Problem(cl.MAX, x[j], cons).solve(verbose=False)
+                if st != 'solved' or abs(v - 1.0) > 1e-5:
+                    return ('max x[%d] s.t. [1, 2] @ (%s(x0), x[%d]) <= 3 reports (%s, %r); the optimum is 1 (the atom and x[%d] %s)'
+                            % (j, kind, j, st, v, j, 'carry the same number' if coincide else 'carry different numbers'))
     return None
 
 
@@ -472,7 +539,7 @@ def run(ctx):
             ctx.problem('oracle', 'property fails on the implementation: ' + why, inputs=meta, failing_input_found=True)
             break
     ctx.suites['subset_histories'] = {'cases': nsub}
-    for name, f in (('resolve', oracle_resolve), ('separately_then_together', oracle_separately_then_together), ('settings_snapshot', oracle_settings), ('generations', oracle_generations)):
+    for name, f in (('resolve', oracle_resolve), ('separately_then_together', oracle_separately_then_together), ('settings_snapshot', oracle_settings), ('generations', oracle_generations), ('id_coincidence', oracle_id_coincidence)):
         why = f(ctx.rng)
         ctx.suites[name] = {'cases': 1, 'failure': why}
         ctx.evaluations += 1
@@ -489,7 +556,7 @@ def search(ctx):
         why, meta = subset_history(ctx.rng)
         if why:
             return dict(meta, property_failure=why)
-    for name, f in (('resolve', oracle_resolve), ('separately_then_together', oracle_separately_then_together), ('settings_snapshot', oracle_settings), ('generations', oracle_generations)):
+    for name, f in (('resolve', oracle_resolve), ('separately_then_together', oracle_separately_then_together), ('settings_snapshot', oracle_settings), ('generations', oracle_generations), ('id_coincidence', oracle_id_coincidence)):
         why = f(ctx.rng)
         if why:
             return {'suite': name, 'property_failure': why}
